@@ -12,6 +12,12 @@ type Lexer struct {
 	line    int
 	column  int
 	atStart bool
+
+	// input[noColonFrom:noColonUntil] is a stretch that looksLikeAccount has already
+	// scanned to its end without finding a colon; a scan that starts inside it would
+	// visit the same bytes and stop at the same place.
+	noColonFrom  int
+	noColonUntil int
 }
 
 func NewLexer(input string) *Lexer {
@@ -548,9 +554,14 @@ func (l *Lexer) scanSign() Token {
 }
 
 func (l *Lexer) looksLikeAccount() bool {
+	if l.noColonFrom <= l.pos && l.pos < l.noColonUntil {
+		return false
+	}
+
 	hasColon := false
 
-	for i := l.pos; i < len(l.input); {
+	i := l.pos
+	for i < len(l.input) {
 		r, size := utf8.DecodeRuneInString(l.input[i:])
 		if r == ':' {
 			hasColon = true
@@ -567,6 +578,9 @@ func (l *Lexer) looksLikeAccount() bool {
 		}
 	}
 
+	if !hasColon {
+		l.noColonFrom, l.noColonUntil = l.pos, i
+	}
 	return hasColon
 }
 
